@@ -23,6 +23,7 @@ CHECKS["C07"] = {
     "nontrivial_floor": 1000,
     "units": [
         {"name": "file-from-fs", "run": "^TestC07FileFromFS$", "kind": "plain"},
+        {"name": "file-by-param", "run": "^TestC07FileByParam$", "kind": "plain"},
         {"name": "fs-vhost", "run": "^TestC07VHost$", "kind": "plain", "shards": 4},
         {"name": "regress", "run": "^TestC07Regress$", "kind": "plain"},
         {"name": "exhaustive", "run": "^TestC07Exhaustive$", "kind": "plain", "shards": 16},
